@@ -16,7 +16,7 @@ CONSTANTS Depth,
           GenExtra      \* operation groups added to the alphabet: subset of {"At", "Nest", "Deact", "Untouched"}
 VARIABLE hist
 
-Obs == [c |-> [p \in Params |-> CV(cache'[p])], w |-> [p \in Params |-> View(cache'[p])], o |-> out']
+Obs == [c |-> [p \in Params |-> CV(cache'[p])], w |-> [p \in Params |-> View(cache'[p])], o |-> out', s |-> seen']
 
 (* <<offered, reported>> pairs used for Write: the driver confirms, or reports another value *)
 WritePairs == {<<v, v>> : v \in Vals} \cup {<<"a", "b">>}
